@@ -317,6 +317,26 @@ func ruleG7(c *Ctx) {
 					okLoop = true
 				}
 			}
+			// a rotated loop (for range k+1): the body is entered from the pre-test and from the back edge, each
+			// under `… < k+1`
+			b := in.Block()
+			if len(b.Preds) >= 2 {
+				all := true
+				for _, p := range b.Preds {
+					iff, ok := p.Instrs[len(p.Instrs)-1].(*ssa.If)
+					if !ok || p.Succs[0] != b {
+						all = false
+						break
+					}
+					bo, ok := iff.Cond.(*ssa.BinOp)
+					if !ok || bo.Op != token.LSS || c.term(bo.Y) != "(param:k + 1)" {
+						all = false
+					}
+				}
+				if all {
+					okLoop = true
+				}
+			}
 		})
 		c.check(okLoop, "grammar.NewLLk fills k+1 tokens", newl.Pos(), "appendNextToken is called in a loop guarded by i < k+1", "NewLLk does not fill the window with k+1 tokens: Current/Peek can index past the window")
 	}
